@@ -7,6 +7,7 @@ pub mod par;
 pub mod props;
 pub mod refnum;
 pub mod refsem;
+pub mod refsyn;
 pub mod report;
 pub mod sexp;
 
